@@ -38,6 +38,15 @@ RICH = [
 
 def gen_case(rng, tier, index):
     cfg = gen.Cfg(tier, categorical=True, zero_fields=True)
+    if index % 9 == 8:
+        # the type-string parser (new in 1.4.0) covers a subset of what Type::tostring prints: numbers and booleans,
+        # lists, options, unions, records with quoted field names, strings, categoricals, and parameters without
+        # floating-point numbers or escaped characters (everything else: known finding F118)
+        cfg = gen.Cfg(tier, categorical=True, zero_fields=False)
+        cfg.dtypes = ["bool"] + gen.INT_DTYPES + gen.FLOAT_DTYPES
+        cfg.params = False
+        T, vals, d = gen.layout(rng, cfg)
+        return {"T": T, "layout": d, "i": 0, "range": [0, 0], "lane": "P"}
     T, vals, d = gen.layout(rng, cfg)
     # sprinkle rich parameters on nodes that carry none
     nodes = [p for p, n in model.walk(d) if not (n.get("params") or {})]
@@ -47,7 +56,34 @@ def gen_case(rng, tier, index):
     return {"T": T, "layout": d, "i": rng.randint(-3, 8), "range": [rng.randint(-3, 8), rng.randint(-3, 8)]}
 
 
+def run_parser(ctx, case):
+    """printing a type and parsing the string back gives an equal type that prints the same"""
+    from vlib import lanep_util
+    ak, P = lanep_util.setup(ctx)
+    d = case["layout"]
+    ctx.cover("lane", "P")
+    arr = P.array(d)
+    t = ak.type(arr).type
+    text = str(t)
+    det = {"lane": "P", "type": text[:300]}
+    try:
+        back = ak.types.from_datashape(text)
+    except Exception as e:     # noqa
+        ctx.violation("type-string-not-parsed", dict(det, error="%s: %s" % (type(e).__name__, " ".join(str(e).split())[:200])))
+        return
+    ctx.nontrivial(True)
+    if str(back) != text:
+        ctx.violation("type-string-round-trip-differs", dict(det, reparsed=str(back)[:300]))
+        return
+    if not (back == t):
+        ctx.violation("parsed-type-not-equal", dict(det, reparsed=str(back)[:300]))
+        return
+    ctx.count("type_strings_parsed_back")
+
+
 def run_case(ctx, case):
+    if case.get("lane") == "P":
+        return run_parser(ctx, case)
     b = ctx.lib
     d = case["layout"]
     h = b.build(d)
@@ -171,6 +207,10 @@ def classify(vio):
 
 
 def signature(vio):
+    import re
+    det = vio.get("detail") or {}
+    if isinstance(det, dict) and det.get("lane") == "P":
+        return "%s:%s" % (vio["kind"], re.sub(r"[0-9]+", "N", (det.get("error") or ""))[:70])
     return vio["kind"]
 
 
